@@ -265,7 +265,7 @@ def typedef_packets(names, rng, enums8, s_static, s_sized, s_counted, customs):
 
 # --------------------------------------------------------------------------- inheritance trees
 
-def inheritance_trees(names, rng, enums8):
+def inheritance_trees(names, rng, enums8, s_static=None):
     out = []
     e = enums8[0]
     vtags = [t for t in e["tags"] if "value" in t]
@@ -336,6 +336,14 @@ def inheritance_trees(names, rng, enums8):
     leaf = names.new("Isu")
     out.append(struct(leaf, [scalar("c", 16)], parent_id=gp))
     out.append(packet(names.new("Ist"), [typedef("l", leaf), scalar("t", 8)]))
+    # 5d. inherited fields that are not Copy in Rust (arrays, structs)
+    if s_static is not None:
+        p = names.new("Ip")
+        out.append(packet(p, [scalar("k", 8), typedef("s", s_static["id"]), count_f("v", 8), array("v", width=16), payload()]))
+        out.append(packet(names.new("Ic"), [scalar("z", 8)], parent_id=p, constraints=[constraint("k", 1)]))
+        p = names.new("Ip")
+        out.append(packet(p, [scalar("k", 8), array("v", width=8, size=2), typedef("s", s_static["id"])]))
+        out.append(packet(names.new("Ic"), [], parent_id=p, constraints=[constraint("k", 2)]))
     # 6. parent without payload, child without fields
     p = names.new("Ip")
     out.append(packet(p, [scalar("a", 8), scalar("b", 8)]))
@@ -369,13 +377,29 @@ def codec_module(seed, endianness, prefix="", tier="quick"):
     decls += payload_packets(names, rng, enums8)
     decls += optional_packets(names, rng, enums8, enums16, structs[0], structs[1], by_w)
     decls += typedef_packets(names, rng, enums8, structs[0], structs[1], structs[2], customs)
-    decls += inheritance_trees(names, rng, enums8)
+    decls += inheritance_trees(names, rng, enums8, structs[0])
     # one packet per enum so that every enum is exercised inside a codec
     for e in enums:
         w = e["width"]
         pad = (8 - w % 8) % 8
         fs = [typedef("e", e["id"])] + ([scalar("p", pad)] if pad else [])
         decls.append(packet(names.new("En"), fs))
+    return file(endianness, decls)
+
+
+def enum_module(endianness, tier="quick"):
+    """enums of the widths whose Rust conversion always has a catch-all arm (not 8/16/32/64)
+    and one packet per enum, in a module of their own: a generator change that makes the
+    match of a ladder-width enum non-exhaustive stops the big module from building, this
+    one still runs and shows the conversion that changed"""
+    names = Names("")
+    widths = (2, 3, 4, 5, 7, 12, 24, 33, 63) if tier == "quick" else (1, 2, 3, 4, 5, 6, 7, 9, 12, 15, 17, 24, 31, 33, 40, 48, 63)
+    enums = enum_shapes(names, widths=widths)
+    decls = list(enums)
+    for e in enums:
+        w = e["width"]
+        pad = (8 - w % 8) % 8
+        decls.append(packet(names.new("En"), [typedef("e", e["id"])] + ([scalar("p", pad)] if pad else [])))
     return file(endianness, decls)
 
 
